@@ -5,8 +5,9 @@ pub mod base64;
 pub mod decode;
 pub mod queue;
 pub mod render;
+pub mod sgr;
 pub mod tty;
 
 pub fn all() -> Vec<World> {
-    vec![base64::world(), queue::world(), decode::world(), tty::world(), render::world()]
+    vec![base64::world(), queue::world(), decode::world(), tty::world(), render::world(), sgr::world()]
 }
